@@ -24,7 +24,7 @@ FIXED = [
  ("F12","C13","UKF.forward","fix: UKF","rows of the Cholesky factor used as sigma offsets and mismatched deviations in the cross covariance: mean/cov != Kalman"),
  ("F13","C14","LQR.forward on LTV, 2nd solve / systime != 0","fix: LQR roll-outs","roll-outs started at the stale system time: returned trajectory not optimal (gradient 53 instead of 1e-14)"),
  ("F14","C15","LTV.set_refpoint() with t=None","fix: LTV.set_refpoint","raised although the doc says the most recent timestamp is taken"),
- ("F15","C17","svdtf","fix: svdtf","reflection case returned -R: wrong rotation on 114/200 exact 3-point sets"),
+ ("F15","C17","svdtf","fix: svdtf reflection","reflection case returned -R: wrong rotation on 114/200 exact 3-point sets"),
  ("F16","C18","knn_filter(radius=...)","fix: knn_filter","outlier not last => IndexError or wrong averages (filtered rows index unfiltered columns)"),
  ("F18","C18","voxel_filter(random=True)","fix: voxel_filter","single occupied voxel => shape (D,) instead of (1,D); single-point cloud => IndexError"),
  ("F17","C20","ReduceToBason.reset()","fix: _Stepper.reset","patience_count survived reset: a reset stepper could stop one step earlier than a fresh one"),
